@@ -38,6 +38,12 @@ DayMonthOK(b, m, d, pref, out) ==
   /\ out[2] = m /\ out[3] = d /\ TimeOf(out) = <<0, 0, 0, 0>>
   /\ SideOK(pref, b, out)
   /\ (pref = "current_period" /\ ~(m = 2 /\ d = 29 /\ ~IsLeap(b[1])) => out[1] = b[1])
+\* day and month WITH a clock time: the time of day takes part in "not after / not before the reference" - the named day
+\* of the reference's own date with a later time is AFTER the reference
+DayMonthTimeOK(b, m, d, t, pref, out) ==
+  /\ out[2] = m /\ out[3] = d /\ TimeOf(out) = t
+  /\ SideOK(pref, b, out)
+  /\ (pref = "current_period" /\ ~(m = 2 /\ d = 29 /\ ~IsLeap(b[1])) => out[1] = b[1])
 Pivot(yy) == IF yy >= 69 THEN 1900 + yy ELSE 2000 + yy
 TwoDigitOK(b, m, d, yy, pref, out) ==
   /\ out[2] = m /\ out[3] = d /\ TimeOf(out) = <<0, 0, 0, 0>>
@@ -54,6 +60,8 @@ InDomain(r) ==
                                  /\ OrdOf(r.base) > 2 /\ OrdOf(r.base) < MaxOrd - 2
        [] r.form = "month"    -> r.m \in 1..12 /\ r.base[1] > 8 /\ r.base[1] < 9990
        [] r.form = "daymonth" -> r.m \in 1..12 /\ r.d >= 1 /\ r.d <= DIM(2000, r.m)
+                                 /\ r.base[1] > 8 /\ r.base[1] < 9990
+       [] r.form = "daymonthtime" -> r.m \in 1..12 /\ r.d >= 1 /\ r.d <= DIM(2000, r.m) /\ r.t[1] \in 0..23 /\ r.t[2] \in 0..59
                                  /\ r.base[1] > 8 /\ r.base[1] < 9990
        [] r.form = "yy"       -> r.m \in 1..12 /\ r.d >= 1 /\ r.d <= DIMTab[r.m] /\ r.yy \in 0..99
                                  /\ r.base[1] >= 1970 /\ r.base[1] <= 2067
@@ -92,6 +100,7 @@ Holds(r, out) ==
                                    /\ (r.pref = "current_period" => out[1] = r.base[1])
          [] r.form = "daymonth" -> /\ DayMonthOK(ShiftSeconds(r.base, 0 - r.boff), r.m, r.d, r.pref, out)
                                    /\ (r.pref = "current_period" /\ ~(r.m = 2 /\ r.d = 29 /\ ~IsLeap(r.base[1])) => out[1] = r.base[1])
+         [] r.form = "daymonthtime" -> DayMonthTimeOK(ShiftSeconds(r.base, 0 - r.boff), r.m, r.d, r.t, r.pref, out)
          [] r.form = "yy"       -> TwoDigitOK(r.base, r.m, r.d, r.yy, r.pref, out)
 
 \* ---- known finding C09-month-override: the month preference is applied after the weekday / time
